@@ -37,6 +37,7 @@
 package c40
 
 import (
+	"bufio"
 	"database/sql"
 	"encoding/json"
 	"fmt"
@@ -565,7 +566,7 @@ func oracle(c Case) vkit.Outcome {
 		}
 		out.Fail = &vkit.Failure{
 			Sig:      "panic:" + site,
-			Observed: fmt.Sprintf("%s %s (auth=%s, headers=%v, body=%s) -> handler panic in %s [%s]: %v", c.Method, clip(c.Path, 300), c.Auth, c.Header, clip(c.Body, 300), site, route, resp.Panic),
+			Observed: fmt.Sprintf("%s %q (auth=%s, headers=%q, body=%q) -> handler panic in %s [%s]: %q", c.Method, clip(c.Path, 300), c.Auth, c.Header, clip(c.Body, 300), site, route, fmt.Sprint(resp.Panic)),
 			Expected: "the handler's own success or error response; the last-resort panic recovery never fires",
 		}
 	}
@@ -586,7 +587,41 @@ func extra() map[string]any {
 	return m
 }
 
+// sanitizeStdout routes everything written to os.Stdout (ego's loggers echo
+// request bytes, e.g. a header value "\xff\xfe") through a filter that
+// replaces invalid UTF-8, because the driver reads a shard's output as UTF-8
+// text. The returned function flushes and restores os.Stdout.
+func sanitizeStdout() func() {
+	real := os.Stdout
+	r, w, err := os.Pipe()
+	if err != nil {
+		return func() {}
+	}
+	os.Stdout = w
+	done := make(chan struct{})
+	go func() {
+		defer close(done)
+		br := bufio.NewReaderSize(r, 1<<16)
+		for {
+			line, err := br.ReadBytes('\n')
+			if len(line) > 0 {
+				_, _ = real.Write([]byte(strings.ToValidUTF8(string(line), "\uFFFD")))
+			}
+			if err != nil {
+				return
+			}
+		}
+	}()
+	return func() {
+		os.Stdout = real
+		_ = w.Close()
+		<-done
+		_ = r.Close()
+	}
+}
+
 func TestC40(t *testing.T) {
+	defer sanitizeStdout()()
 	if _, err := getEnv(); err != nil {
 		t.Fatalf("fixture: %v", err)
 	}
